@@ -63,7 +63,7 @@ def render(m: Mod, world: "World") -> str:
             top.append(f"import {dep}{ign}")
             pref[dep] = f"{dep}."
         elif style == "from":
-            top.append(f"from {dep} import f_{d}, mk_{d}, C_{d}")
+            top.append(f"from {dep} import f_{d}, mk_{d}, C_{d}, K_{d}")
             if world.mods.get(dep) is not None and world.mods[dep].via:
                 top[-1] += f", via_{d}"
             top[-1] += ign
@@ -102,6 +102,10 @@ def render(m: Mod, world: "World") -> str:
                     stmts.append(f"u_via_{me}_{d}: int = {p}via_{d}().val")
             elif k == "final" and style != "from":
                 stmts.append(f"u_fin_{me}_{d}: int = {p}ROW_{d}[{p}K_{d}]")
+            elif k == "final":
+                # narrowing of an index expression works only when the index is a literal: a Final name counts as
+                # one when its Var carries the constant value
+                stmts.append(f"def fin_{me}_{d}(row: list[int | None]) -> int:\n    if row[K_{d}] is not None:\n        return row[K_{d}]\n    return -1")
             elif k == "sub" and style != "func":
                 stmts.append(f"class D_{me}_{d}({p}C_{d}):\n    def meth(self, a: int) -> int:\n        return a")
         if style == "func":
@@ -116,7 +120,7 @@ def render(m: Mod, world: "World") -> str:
 
 def render_stub(m: Mod) -> str:
     me = ident(m.name)
-    return (f"class C_{me}:\n    val: {m.val_t}\n    def meth(self, a: {m.meth_t}) -> {m.meth_t}: ...\n"
+    return (f"from typing import Final\nK_{me}: Final = 0\nROW_{me}: tuple[int, str]\nclass C_{me}:\n    val: {m.val_t}\n    def meth(self, a: {m.meth_t}) -> {m.meth_t}: ...\n"
             f"def f_{me}(x: {m.par_t}) -> {m.ret_t}: ...\ndef mk_{me}() -> C_{me}: ...\n")
 
 
@@ -351,6 +355,16 @@ def scripted_histories() -> list:
          ("attr-of-indirect-dep", lambda w: setattr(w.mods["m2"], "val_t", "str")),
          ("body-only", lambda w: setattr(w.mods["m2"], "body", 5)),
          ("attr-back", lambda w: setattr(w.mods["m2"], "val_t", "int")))
+    def fin2():
+        w = World()
+        w.mods["m2"] = Mod("m2", val_t="int")
+        w.mods["m1"] = Mod("m1", imports={"m2": "from"}, uses={"m2": ["final", "call"]})
+        w.mods["m0"] = Mod("m0", imports={"m1": "import", "m2": "import"}, uses={"m1": ["call"], "m2": ["final"]})
+        return w
+    hist("final-constant", fin2(),
+         ("body-of-importer", lambda w: setattr(w.mods["m1"], "body", 7)),
+         ("signature-of-importer", lambda w: setattr(w.mods["m1"], "ret_t", "str")),
+         ("touch-constant-module", lambda w: w.touched.add("m2")))
     hist("signature", base3(),
          ("ret-type", lambda w: setattr(w.mods["m1"], "ret_t", "str")),
          ("par-type", lambda w: setattr(w.mods["m1"], "par_t", "list[int]")),
